@@ -246,6 +246,26 @@ def opIdrange (toks : List String) : String :=
     | none => "bad-op"
   | _ => "bad-op"
 
+
+/-- `idlimit <n0> <id>…`: the table already holds ids 1000 … 1000+n0-1 -/
+def opIdlimit (toks : List String) : String :=
+  match toks with
+  | n0 :: ids =>
+    match nat? n0, ids.mapM nat? with
+    | some n0, some ids =>
+      if n0 < 1 ∨ n0 > 65535 then "bad-op" else
+      let rec go (tbl : List Nat) (acc : String) : List Nat → List Nat × String
+        | [] => (tbl, acc)
+        | id :: rest =>
+          match Sqfs.IdTable.step Sqfs.IdTable.limit tbl id with
+          | none => (tbl, acc ++ s!" e{errOverflow}")
+          | some (i, t) => go t (acc ++ s!" {Sqfs.IdTable.storedIndex i}") rest
+      let (tbl, acc) := go ((List.range n0).map (· + 1000)) "idx" ids
+      let (file, _) := idTableWrite rawCmp [] tbl
+      s!"{acc} count={Sqfs.IdTable.superIdCount tbl} len={file.length}"
+    | _, _ => "bad-op"
+  | _ => "bad-op"
+
 def parsePair (t : String) : Option (Nat × Nat) :=
   match t.splitOn "/" with | [a, b] => do pure (← nat? a, ← nat? b) | _ => none
 
@@ -471,6 +491,7 @@ def handle (line : String) : String :=
   | "idtab" :: r => opIdtab r
   | "idrange" :: r => opIdrange r
   | "frag" :: r => opFrag r
+  | "idlimit" :: r => opIdlimit r
   | "xattr" :: r => opXattr r
   | "xsets" :: r => opXsets r
   | "tree" :: r => opTree r
